@@ -131,6 +131,16 @@ Fixpoint grun (ansi : bool) (w : nat) (st : secs) (gs : gates) (f : formatter) (
     Ok (fst (fst (fst b)), snd (fst (fst b)), snd (fst b), snd a ++ snd b)
   end.
 
+(* the run C10 asks for: every refused call is the identity *)
+Fixpoint grun_ideal (ansi : bool) (w : nat) (st : secs) (gs : gates) (f : formatter) (ops : list gop) : res gres :=
+  match ops with
+  | [] => Ok (st, gs, f, [])
+  | o :: r =>
+    do a <- gstep_ideal ansi w st gs f o;
+    do b <- grun_ideal ansi w (fst (fst (fst a))) (snd (fst (fst a))) (snd (fst a)) r;
+    Ok (fst (fst (fst b)), snd (fst (fst b)), snd (fst b), snd a ++ snd b)
+  end.
+
 (* the settings only depend on the calls made *)
 Definition gates_after (gs : gates) (ops : list gop) : gates := fold_left gates_step ops gs.
 
